@@ -328,6 +328,22 @@ fn main() {
                 pats.push(format!("{{{},zz,{}}}>=1", x, y));
             }
         }
+        // fixed text on both sides of a group whose alternatives carry the operator
+        for p in ["pkg{>=1,<0}.5", "p{>=1,<1}.0", "p{>,<}1", "p{>=,<}1.0", "py-foo{>=1,<0}.5", "p{-1,>=2}.0", "{p,q}{>=1,<1}.5"] {
+            pats.push(p.to_string());
+        }
+        // nested groups of >= 10 alternatives next to operators, inside and outside the groups
+        for n in [9usize, 10, 11, 16, 24] {
+            let nums: Vec<String> = (0..n).map(|i| format!("{}", 27 + i)).collect();
+            let evens: Vec<String> = (0..n).map(|i| format!("{}", 2 * i)).collect();
+            pats.push(format!("{{py{{{}}}-foo>=2,py-foo}}<5", nums.join(",")));
+            pats.push(format!("{{py{{{}}}-foo,py-foo}}>=1<5", nums.join(",")));
+            pats.push(format!("py-foo>=2.{{{}}}.3<3", evens.join(",")));
+            pats.push(format!("py-foo>=0.{{{}}}<9", evens.join(",")));
+            let ops: Vec<String> = (0..n).map(|i| format!("o{}>=1", i)).collect();
+            pats.push(format!("{{{},py-foo>=1}}<5", ops.join(",")));
+            pats.push(format!("{{{},py>=1}}-foo<5", ops.join(",")));
+        }
         // a comparison operator to the left of a large group of bounds, and groups of operators
         for n in [15usize, 16, 17, 24, 25, 40] {
             let bounds: Vec<String> = (0..n).map(|i| format!("1.{}", i)).collect();
@@ -352,6 +368,7 @@ fn main() {
             pats.push(format!("p{}a{}-1", "{".repeat(d), ",c}".repeat(d)));
         }
         let names: Vec<String> = ["p-1", "pa0-1", "pa7-1", "pa15-1", "pa16-1", "pa63-1", "pa199-1", "pa200-1", "a0p-1", "a16p-1", "p-0", "p-16", "p-199", "p-200",
+            "pkg-2.0", "pkg-0.2", "pkg-1", "p-2.0", "p-1.0", "p-0.5", "p-1", "py-foo-1.0", "py-foo-2.5", "py-foo-2.4.3", "py-foo-6", "py27-foo-3", "py27-foo-6", "py30-foo-1", "o3-4", "o3-1",
             "py-xyz-foo-1", "py-opt3-foo-1", "py-opt16-foo-1", "py-xyz-foo-2", "py-x-foo-1", "py-foo-1", "py-foo-2", "py-foo-0", "py-fooopt3", "opt3", "py-yaz-foo-1",
             "pab-1", "paaaa-1", "paaaaaaaaaaaa-1", "paaaaaaaaaaaaaaaaaa-1", "paaaaaaaaaaaaaaaaaaaa-1", "pabababab-1", "paaaaaaaaaa-1", "pb-1", "pa-1", "pbbbba-1", "pc-1", "pac-1", "pacccc-1"].iter().map(|s| s.to_string()).collect();
         let mut names = names;
